@@ -105,7 +105,10 @@ func (c *Encoder) encodeErrorStatement(stmt *ast.ErrorStatement) *Frame {
 	defer encodePool.Put(w)
 	w.Reset()
 
-	w.Write(c.encodeExpression(stmt.Code).Encode())
+	// Code may be omitted ("error;")
+	if stmt.Code != nil {
+		w.Write(c.encodeExpression(stmt.Code).Encode())
+	}
 	if stmt.Argument != nil {
 		w.Write(c.encodeExpression(stmt.Argument).Encode())
 	}
